@@ -37,15 +37,28 @@ Proof. exact accepted_value_wellformed. Qed.
 Print Assumptions C20_parser_accepts_only_wellformed_values.
 
 (* the registry's loop with its groupStart flag brackets exactly the maximal runs of equally named groups, whatever the name
-   filters select (a group none of whose tests is selected still gets its two callbacks); without filters it is the loop
-   shared with C16 *)
-Theorem C20_registry_order : forall fs ts, events_sel fs ts = flat_map (seg_events fs) (segments ts).
+   filters select (a group none of whose tests is selected still gets its two callbacks), and whatever it reports about a shell it
+   reports about the shell with the run options applied (arm = setRunIgnored under -ri, applied at the top of the iteration);
+   without run options these are the registered tests themselves; without filters too it is the loop shared with C16 *)
+Theorem C20_registry_order : forall ri fs ts, events_sel ri fs ts = flat_map (seg_events fs) (segments (map (arm ri) ts)).
 Proof. exact reg_loop_segments. Qed.
 Print Assumptions C20_registry_order.
 
-Theorem C20_registry_order_nofilter : forall ts, events_sel [] ts = events_of ts.
+Theorem C20_registry_order_no_run_options : forall fs ts, events_sel false fs ts = flat_map (seg_events fs) (segments ts).
+Proof. exact reg_loop_segments_no_ri. Qed.
+Print Assumptions C20_registry_order_no_run_options.
+
+Theorem C20_registry_order_nofilter : forall ts, events_sel false [] ts = events_of ts.
 Proof. exact events_nofilter. Qed.
 Print Assumptions C20_registry_order_nofilter.
+
+(* repeated passes (-r<n>) over the same registry and output: the shells stay armed, every pass reports what the first one reports,
+   and every pass executes the same bodies *)
+Theorem C20_passes : forall ri fs n ts,
+  passes_events ri fs n ts = times n (events_sel false fs (map (arm ri) ts))
+  /\ passes_exec ri fs n ts = times n (map (exec_count fs) (map (arm ri) ts)).
+Proof. exact passes_times. Qed.
+Print Assumptions C20_passes.
 
 (* the parser run on any sequence of well-formed printed messages (identifier names, distinct keys, unescaped pieces free of
    special characters) followed by any text without # returns exactly the messages that were printed *)
@@ -55,41 +68,73 @@ Proof. exact parse_items. Qed.
 Print Assumptions C20_parse_print.
 
 (* what the (repaired) writer prints for a run, callback by callback through currtest_ / currGroup_ / groupOpen_ *)
-Theorem C20_writer_items : forall dur fs ts, tc_items Esc true dur tc_init (events_sel fs ts) = flat_map (seg_items dur fs) (segments ts).
+Theorem C20_writer_items : forall dur fs ri n ts,
+  tc_items Esc true dur tc_init (passes_events ri fs n ts) = times n (flat_map (seg_items dur fs) (segments (map (arm ri) ts))).
 Proof. exact run_items. Qed.
 Print Assumptions C20_writer_items.
 
 (* round trip of a whole run: the stream (followed by any summary text without #) parses to messages_of -- all byte strings
-   as names, paths and messages, all pass/fail/ignore patterns, all strict name filters, test bodies that do not print *)
-Theorem C20_stream : forall dur fs ts trailer, forallb noprint ts = true -> no_hash trailer = true ->
-  tc_parse (render_tc dur fs ts ++ trailer) = Some (messages_of dur fs ts).
+   as names, paths and messages, all pass/fail/ignore patterns, with and without run-ignored, any number of passes, all strict name
+   filters, test bodies that do not print *)
+Theorem C20_stream : forall dur fs ri n ts trailer, forallb noprint ts = true -> no_hash trailer = true ->
+  tc_parse (render_tc dur ri n fs ts ++ trailer) = Some (messages_of dur ri n fs ts).
 Proof. exact stream. Qed.
 Print Assumptions C20_stream.
 
 (* messages_of is balanced: every suite start has one finish of the same name, every test start inside a suite one finish of
    the same name, ignored / failed messages name the open test *)
-Theorem C20_balanced : forall dur fs ts, balanced (messages_of dur fs ts) = true.
+Theorem C20_balanced : forall dur ri fs n ts, balanced (messages_of dur ri n fs ts) = true.
 Proof. exact balanced_messages. Qed.
 Print Assumptions C20_balanced.
 
-(* messages_of is faithful: per group one suite bracket with the group's name, per test that runs one bracket with the test's name,
-   testIgnored iff ignored, one testFailed per failure in order with the failure's text and location *)
-Theorem C20_messages_faithful : forall dur fs ts, faithful fs (segments ts) (messages_of dur fs ts) = true.
+(* messages_of with exec_of is faithful: per pass and group one suite bracket with the group's name, per selected test one bracket with
+   the test's name, testIgnored iff the test is ignored and not run, a flagged test's body not executed, any other selected test's body
+   executed once, one testFailed per failure in order with the failure's text and location *)
+Theorem C20_messages_faithful : forall dur ri fs n ts,
+  faithful ri fs (pass_groups n ts) (exec_of ri n fs ts) (messages_of dur ri n fs ts) = true.
 Proof. exact faithful_messages. Qed.
 Print Assumptions C20_messages_faithful.
+
+(* the body executions the model counts (on the shells as armed by the loop) are the ones the property demands *)
+Theorem C20_exec_model : forall ri fs n ts, passes_exec ri fs n ts = exec_of ri n fs ts.
+Proof. exact exec_model. Qed.
+Print Assumptions C20_exec_model.
+
+(* what the oracle accepts for one test: started; the ignored flag iff the test is ignored and NOT run; with the flag the body was not
+   executed and the very next message is the finish (no testFailed); without it the body was executed exactly once *)
+Theorem C20_flag_iff_ignored_and_not_run : forall ri t c ms r, take_test ri t c ms = Some r ->
+  exists m rest, ms = m :: rest /\ is_msg L_testStarted m = true /\
+    ((runs ri t = false /\ c = 0 /\ exists i e, rest = i :: e :: r /\ is_flag t i = true /\ is_msg L_testFinished e = true)
+     \/ (runs ri t = true /\ c = 1 /\ (match rest with i :: _ => is_flag t i | [] => false end) = false)).
+Proof. exact take_test_reads. Qed.
+Print Assumptions C20_flag_iff_ignored_and_not_run.
+
+(* under run-ignored the observation (stream and body executions) of a registry equals that of the same registry with the ignored
+   markers removed, for any number of passes; no message of such a run is a testIgnored *)
+Theorem C20_run_ignored_as_unignored : forall dur n fs ts,
+  run {| s_dur := dur; s_ri := true; s_passes := n; s_filters := fs; s_tests := ts |}
+  = run {| s_dur := dur; s_ri := false; s_passes := n; s_filters := fs; s_tests := map unignore ts |}.
+Proof. exact run_ignored_as_unignored. Qed.
+Print Assumptions C20_run_ignored_as_unignored.
+
+Theorem C20_run_ignored_no_flag : forall dur n fs ts,
+  forallb (fun m => negb (is_msg L_testIgnored m)) (messages_of dur true n fs ts) = true.
+Proof. exact run_ignored_no_flag. Qed.
+Print Assumptions C20_run_ignored_no_flag.
 
 (* the executable oracle used on the implementation's stream accepts every stream the model writes *)
 Theorem C20_run_meets_spec : forall s, valid s = true -> spec s (run s) = true.
 Proof. exact run_meets_spec. Qed.
 Print Assumptions C20_run_meets_spec.
 
-Theorem C20_run_meets_spec_with_text : forall s trailer, valid s = true -> no_hash trailer = true -> spec s (run s ++ trailer) = true.
+Theorem C20_run_meets_spec_with_text : forall s trailer, valid s = true -> no_hash trailer = true -> spec s (add_text (run s) trailer) = true.
 Proof. exact run_meets_spec_text. Qed.
 Print Assumptions C20_run_meets_spec_with_text.
 
-(* spec = the stream parses, the messages are balanced and faithful to the scenario *)
+(* spec = the stream parses, the messages are balanced and, with the observed body executions, faithful to the scenario *)
 Theorem C20_spec_reads : forall s o, spec s o = true <->
-  exists ms, tc_parse o = Some ms /\ balanced ms = true /\ faithful (s_filters s) (segments (s_tests s)) ms = true.
+  exists ms, tc_parse (o_stream o) = Some ms /\ balanced ms = true
+             /\ faithful (s_ri s) (s_filters s) (pass_groups (s_passes s) (s_tests s)) (o_exec o) ms = true.
 Proof. exact spec_reads. Qed.
 Print Assumptions C20_spec_reads.
 
@@ -120,10 +165,22 @@ Proof. exact value_rejects_unknown_escape. Qed.
 Print Assumptions C20_parser_rejects_unknown_escape.
 
 Theorem C20_hypotheses_satisfiable :
-  valid example_run = true /\ length (messages_of 42 (s_filters example_run) (s_tests example_run)) = 16%nat /\ spec example_run (run example_run) = true
-  /\ tc_parse (run example_run) = Some (messages_of 42 (s_filters example_run) (s_tests example_run)).
+  valid example_run = true /\ length (messages_of 42 false 1 (s_filters example_run) (s_tests example_run)) = 16%nat /\ spec example_run (run example_run) = true
+  /\ tc_parse (o_stream (run example_run)) = Some (messages_of 42 false 1 (s_filters example_run) (s_tests example_run)).
 Proof. exact example_valid. Qed.
 Print Assumptions C20_hypotheses_satisfiable.
+
+(* run-ignored, two passes, an ignored test whose body fails: accepted with -ri as a normal failing test (executed in both passes, two
+   testFailed), accepted without -ri as a flagged test that is not executed; each observation is rejected for the other scenario, and the
+   observation "flagged although the body was executed" is rejected for both *)
+Theorem C20_run_ignored_example :
+  valid example_ri = true /\ spec example_ri (run example_ri) = true /\ o_exec (run example_ri) = [1; 1; 1; 1]
+  /\ length (filter (is_msg L_testFailed) (messages_of 5 true 2 [] (s_tests example_ri))) = 2%nat
+  /\ spec example_no_ri (run example_no_ri) = true /\ o_exec (run example_no_ri) = [0; 1; 0; 1]
+  /\ spec example_ri (run example_no_ri) = false /\ spec example_no_ri (run example_ri) = false
+  /\ spec example_ri late_options_obs = false /\ spec example_no_ri late_options_obs = false.
+Proof. exact example_ri_valid. Qed.
+Print Assumptions C20_run_ignored_example.
 
 (* --------------------------------------------------------------------------------------------------------------
    printEscaped as tools/cxx2gal.py regenerates it from TeamCityTestOutput.cpp on every run (gen/Gen_LoopC20.v; the text handed to printBuffer is the ghost output): it emits exactly the model's tc_escape of the C string at its argument, touches no existing block (the result memory is the old one followed by the scratch arrays), stays inside its buffers and terminates within a fuel just above the string length
